@@ -80,7 +80,7 @@ def dict_families(max_members=3):
         yield from itertools.combinations(mem, n)
 
 
-KEYS = ["a", "b", "c", "d", "e", "f", "g", "h", "i", "j", "k", "l", "m"]
+KEYS = ["a", "b", "c", "d", "e", "f", "g", "h", "i", "j", "k", "l", "m", "module", "qualname", "elem_types"]
 
 
 def gen_dict(rng, depth, nkeys=None, keymode=None):
